@@ -204,6 +204,15 @@ impl QueryComputing {
 
     pub const fn query_kind(&self) -> QueryKind { self.query_kind }
 
+    /// Fingerprint of the transitive firewall set recorded so far by the
+    /// execution that owns this computing state.
+    pub(super) fn recorded_tfc_fingerprint<C: Config>(
+        &self,
+        engine: &Engine<C>,
+    ) -> Compact128 {
+        engine.hash(&engine.create_tfc_from_scc_hash_set(&self.tfc))
+    }
+
     pub fn caller_observe_tfc_callees(
         &self,
         callee_info: &NodeInfo,
